@@ -158,3 +158,103 @@ pub fn specs(tier: &str) -> Vec<ExpSpec> {
     }
     v
 }
+
+// ------------------------------------------------------------------------------------------ the 4 GiB size limit
+
+/// A FAT file cannot be longer than 2^32 - 1 bytes. On a sparse volume that already holds a file of almost that size
+/// (a chain of 131 072 clusters of 32 KiB): the cursor at the end is the size; a write there is accepted only as far as
+/// the limit allows, what was reported as written is readable and recorded, and the size never wraps around.
+pub fn size_limit_checks() -> (Vec<(String, String)>, u64) {
+    use crate::c20::{sparse_with, BigFile, Shape};
+    use fatfs::{Read, Seek, SeekFrom, Write};
+    use harness::dev::{new_dev, MemDev};
+    use harness::sess;
+    use std::cell::Cell;
+    use std::rc::Rc;
+    let shape = Shape { name: "s512-5GiB", bps: 512, spc: 64, clusters: 170_000 };
+    let cs = 32_768u64;
+    let mut v = Vec::new();
+    let mut n = 0u64;
+    // sizes: 15 bytes below the limit (inside the last possible cluster), one whole cluster below it (the next write
+    // has to allocate the last possible cluster), at the limit
+    for size in [0xFFFF_FFF0u32, 0xFFFF_8000, 0xFFFF_FFFF] {
+        for wlen in [1usize, 32, 40_000] {
+            n += 1;
+            let len = ((size as u64 + cs - 1) / cs) as u32;
+            let big = BigFile { start: 10, len, size };
+            let free: Vec<u32> = (10 + len..10 + len + 4).collect();
+            let sp = sparse_with(&shape, &free, free[0], "size-limit", Some(big));
+            let (st, _d) = new_dev(&sp.cfg.base);
+            let ctr = Rc::new(Cell::new(0u32));
+            let ctx = format!("file of {size:#x} bytes, write of {wlen} bytes at its end");
+            let r = sess::guarded(|| -> Result<(), (String, String)> {
+                let fs = sess::mount(MemDev::new(st.clone()), &sp.cfg, &ctr).map_err(|e| ("C02/machinery/size-limit/mount".to_string(), format!("{:?}", sess::ek(e))))?;
+                let mut f = fs.root_dir().open_file("BIG.BIN").map_err(|e| ("C02/machinery/size-limit/open".to_string(), format!("{:?}", sess::ek(e))))?;
+                let end = f.seek(SeekFrom::End(0)).map_err(|e| ("C02/size-limit/seek-end-failed".to_string(), format!("{ctx}: {:?}", sess::ek(e))))?;
+                if end != size as u64 {
+                    return Err(("C02/size-limit/seek-end".into(), format!("{ctx}: seek(End(0)) = {end:#x}")));
+                }
+                let buf: Vec<u8> = (0..wlen).map(|i| 0x40 | (i as u8 & 0x3F)).collect();
+                let room = (0xFFFF_FFFFu64 - size as u64) as usize;
+                let acc = match f.write(&buf) {
+                    Ok(a) => a,
+                    Err(e) => match sess::ek(e) {
+                        // nothing fits: refusing is as good as accepting 0 bytes
+                        harness::model::ErrKind::WriteZero | harness::model::ErrKind::InvalidInput | harness::model::ErrKind::NotEnoughSpace if room == 0 => 0,
+                        k => return Err(("C02/size-limit/write-failed".into(), format!("{ctx}: {k:?}"))),
+                    },
+                };
+                if acc > wlen.min(room) || (room > 0 && acc == 0) {
+                    return Err(("C02/size-limit/bytes-accepted".into(), format!("{ctx}: {acc} bytes accepted, {} fit below the 4 GiB limit", wlen.min(room))));
+                }
+                let pos = f.seek(SeekFrom::Current(0)).map_err(|e| ("C02/size-limit/tell-failed".to_string(), format!("{ctx}: {:?}", sess::ek(e))))?;
+                if pos != size as u64 + acc as u64 {
+                    return Err(("C02/size-limit/cursor-after-write".into(), format!("{ctx}: {acc} bytes accepted, cursor at {pos:#x}")));
+                }
+                f.flush().map_err(|e| ("C02/size-limit/flush-failed".to_string(), format!("{ctx}: {:?}", sess::ek(e))))?;
+                // what was reported as written is there, and so are the bytes before it
+                let back = 16u64.min(size as u64);
+                f.seek(SeekFrom::Start(size as u64 - back)).map_err(|e| ("C02/size-limit/seek-back-failed".to_string(), format!("{ctx}: {:?}", sess::ek(e))))?;
+                let mut rb = vec![0xEEu8; back as usize + acc + 8];
+                let mut got = 0;
+                loop {
+                    match f.read(&mut rb[got..]) {
+                        Ok(0) => break,
+                        Ok(k) => got += k,
+                        Err(e) => return Err(("C02/size-limit/read-back-failed".into(), format!("{ctx}: {:?}", sess::ek(e)))),
+                    }
+                }
+                let mut want = vec![0u8; back as usize];
+                want.extend_from_slice(&buf[..acc]);
+                if rb[..got] != want[..] {
+                    return Err(("C02/size-limit/read-back".into(), format!("{ctx}: {got} bytes read back from {:#x}, expected {} ({} old + {acc} written)", size as u64 - back, want.len(), back)));
+                }
+                // a second write at the limit adds nothing
+                if room <= wlen {
+                    let again = f.write(&buf).unwrap_or(0);
+                    if again != 0 {
+                        return Err(("C02/size-limit/write-beyond-the-limit".into(), format!("{ctx}: a further write at {:#x} accepted {again} bytes", size as u64 + acc as u64)));
+                    }
+                }
+                drop(f);
+                // recorded size
+                let root_off = harness::decoder::parse_raw(&st.borrow().read_vec(0, 512)).map(|g| g.cluster_off(2) as u64).unwrap_or(0);
+                let raw = st.borrow().read_vec(root_off, 32);
+                let rec = u32::from_le_bytes([raw[28], raw[29], raw[30], raw[31]]);
+                if rec as u64 != size as u64 + acc as u64 {
+                    return Err(("C02/size-limit/recorded-size".into(), format!("{ctx}: directory entry records {rec:#x}, expected {:#x}", size as u64 + acc as u64)));
+                }
+                fs.unmount().map_err(|e| ("C02/size-limit/unmount-failed".to_string(), format!("{ctx}: {:?}", sess::ek(e))))?;
+                Ok(())
+            });
+            match r {
+                Err(p) => v.push((format!("C02/size-limit/panic/{}", crate::c06::panic_class(&p)), format!("{ctx}: {p}"))),
+                Ok(Err(x)) => v.push(x),
+                Ok(Ok(())) => {}
+            }
+        }
+    }
+    v.sort();
+    v.dedup_by(|a, b| a.0 == b.0);
+    (v, n)
+}
